@@ -39,6 +39,13 @@ type Config struct {
 	// Late: the late-answer schedule (run N times, not enumerated): the outer read of the nested resource times out
 	// while the nested handler is held; the nested system then answers late and reaches Done; then the outer aborts.
 	Late bool `json:"late,omitempty"`
+	// Nested2 (Mix = nested): the nested system has TWO archetypes: the register, which takes every request at a
+	// scheduling point of its own and is held while it looks at its store (it can be slow), and an idle archetype
+	// that ends on its own (done | err | assert) at any point the scheduler chooses.
+	Nested2 string `json:"nested2,omitempty"`
+	// Ticker (Mix = nested): the nested system also has an archetype that commits a critical section of its own
+	// whenever it is scheduled (a nested system that works by itself, like a CRDT that broadcasts periodically).
+	Ticker bool `json:"ticker,omitempty"`
 }
 
 func (c Config) proto() bool { return c.NestedReq > 0 }
@@ -67,6 +74,12 @@ func (c Config) Name() string {
 	if c.AbortOnce {
 		n += "/s0-aborts-once"
 	}
+	if c.Nested2 != "" {
+		n += "/two-nested-archetypes-idle-ends=" + c.Nested2
+	}
+	if c.Ticker {
+		n += "/nested-ticker"
+	}
 	if c.Late {
 		n += "/late-answer"
 		if c.NestedKind == "alive" {
@@ -79,6 +92,8 @@ func (c Config) Name() string {
 var errBoom = errors.New("verif: injected resource error")
 var errClose = errors.New("verif: injected Close error")
 var errNested = errors.New("verif: the nested archetype failed")
+
+const keyNestedLeftRunning = "nested/stopped-before-run-leaves-nested-archetypes-running"
 
 const loopGateCap = 4 // End=loop: Run is not granted a further section while a Stop caller has not started yet and this many sections were begun
 
@@ -99,6 +114,9 @@ type world struct {
 	nestedEnd   *bubble.Thread // the nested archetype parked at its end label (self-ending nested configurations)
 	nestedHold  *bubble.Thread // Late: the nested handler parked at its store
 	nestedEnded string         // how the nested archetype really ended on its own ("" = it did not)
+	idleEnd     *bubble.Thread // Nested2: the idle nested archetype parked at its end
+	regGate     *bubble.Thread // Nested2: the register parked before it takes its next request
+	ticker      *bubble.Thread // Ticker: the self-working nested archetype parked before its next section
 
 	fault      *bubble.Faulty
 	faultFired string // which failing construct really executed ("assert", "errorlabel")
@@ -236,7 +254,7 @@ func (w *world) mainArchetype() distsys.MPCalArchetype {
 		if sec == 1 && cfg.Skip1 {
 			return nil
 		}
-		if sec == 0 && (cfg.proto() || cfg.Late) {
+		if sec == 0 && (cfg.proto() || cfg.Late || cfg.Nested2 != "") {
 			if _, err := iface.Read(r, nil); err != nil {
 				if cfg.Late && err == distsys.ErrCriticalSectionAborted {
 					// the read timed out; the body takes a while before it gives up (a scheduling point): the
@@ -362,11 +380,16 @@ func build(cfg Config, s *bubble.Sched) *world {
 	case "nested":
 		var ext *bubble.Thread
 		selfEnding := cfg.Nested != "" || cfg.proto() || cfg.Late
-		if s != nil && !selfEnding {
+		two := cfg.Nested2 != ""
+		if s != nil && !selfEnding && !two {
 			ext = s.External("N") // the inner resource's Close is a scheduling point only when the outer context closes the nested one
 		}
 		ends, after, endReq := "", 0, cfg.NestedReq
 		var nestedOpts []distsys.MPCalContextConfigFn
+		if two && s != nil {
+			w.regGate = s.External("B") // the register takes every request at a scheduling point of its own
+			nestedOpts = append(nestedOpts, distsys.SetFairnessCounter(bubble.NewGate(w.regGate)))
+		}
 		if selfEnding {
 			switch {
 			case cfg.Late && cfg.NestedKind == "alive":
@@ -393,7 +416,7 @@ func build(cfg Config, s *bubble.Sched) *world {
 			store := &bubble.Logging{Inner: local(4), Name: "nested.store", Who: "N", Log: w.log, ClosePark: ext}
 			w.regs = append(w.regs, store)
 			var storeRes distsys.ArchetypeResource = store
-			if cfg.Late && s != nil {
+			if (cfg.Late || two) && s != nil {
 				// the nested handler is held (a scheduling point of its own) while it looks at its store
 				w.nestedHold = s.External("N")
 				storeRes = &bubble.Yielding{Inner: store, Th: w.nestedHold, Name: "nested.store"}
@@ -404,7 +427,56 @@ func build(cfg Config, s *bubble.Sched) *world {
 				distsys.EnsureArchetypeRefParam("store", storeRes),
 				distsys.EnsureMPCalContextConfigs(nestedOpts...))
 			w.nestedCtx = append(w.nestedCtx, nctx)
-			return []*distsys.MPCalContext{nctx}
+			if two {
+				// the idle archetype: nothing but its end, at a scheduling point of its own
+				kind := cfg.Nested2
+				var idleOpts []distsys.MPCalContextConfigFn
+				if s != nil {
+					w.idleEnd = s.External("Aend")
+					idleOpts = append(idleOpts, distsys.SetFairnessCounter(bubble.NewGate(w.idleEnd)))
+				}
+				idle := distsys.MPCalCriticalSection{Name: "Idle.end", Body: func(distsys.ArchetypeInterface) error {
+					w.nestedEnded = kind
+					switch kind {
+					case "err":
+						return errNested
+					case "assert":
+						return fmt.Errorf("%w: the idle nested archetype's own assertion", distsys.ErrAssertionFailed)
+					}
+					return distsys.ErrDone
+				}}
+				w.nestedCtx = append(w.nestedCtx, distsys.NewMPCalContext(tla.MakeString("idle"),
+					distsys.MPCalArchetype{Name: "Idle", Label: "Idle.end", JumpTable: distsys.MakeMPCalJumpTable(idle),
+						ProcTable: distsys.MakeMPCalProcTable(), PreAmble: func(distsys.ArchetypeInterface) {}},
+					distsys.EnsureMPCalContextConfigs(idleOpts...)))
+			}
+			if cfg.Ticker {
+				tstore := &bubble.Logging{Inner: local(5), Name: "ticker.store", Who: "T", Log: w.log}
+				w.regs = append(w.regs, tstore)
+				var tOpts []distsys.MPCalContextConfigFn
+				if s != nil {
+					w.ticker = s.External("T")
+					tOpts = append(tOpts, distsys.SetFairnessCounter(bubble.NewGate(w.ticker)))
+				}
+				ticks := 0
+				tick := distsys.MPCalCriticalSection{Name: "Tick.loop", Body: func(iface distsys.ArchetypeInterface) error {
+					st, err := iface.RequireArchetypeResourceRef("Tick.store")
+					if err != nil {
+						return err
+					}
+					ticks++
+					if err := iface.Write(st, nil, num(ticks)); err != nil {
+						return err
+					}
+					return iface.Goto("Tick.loop")
+				}}
+				w.nestedCtx = append(w.nestedCtx, distsys.NewMPCalContext(tla.MakeString("tick"),
+					distsys.MPCalArchetype{Name: "Tick", Label: "Tick.loop", RequiredRefParams: []string{"Tick.store"}, JumpTable: distsys.MakeMPCalJumpTable(tick),
+						ProcTable: distsys.MakeMPCalProcTable(), PreAmble: func(distsys.ArchetypeInterface) {}},
+					distsys.EnsureArchetypeRefParam("store", tstore),
+					distsys.EnsureMPCalContextConfigs(tOpts...)))
+			}
+			return append([]*distsys.MPCalContext(nil), w.nestedCtx...)
 		})
 		lr := w.logging("r", park, nested)
 		lr.ParkAfter = true // Run is parked again after the nested shutdown, i.e. right before its finaliser
@@ -539,6 +611,29 @@ func (w *world) judge(evs []bubble.Event) *Failure {
 			}
 		}
 	}
+	// (3b) archetypes the stopped context owns: once the outer Stop calls and Run (if it was called) have returned,
+	// no nested archetype commits critical sections any more (the one that was in flight is allowed)
+	if cfg.Ticker && stopCalls > 0 && (cfg.NoRun || w.runRet[0]) {
+		var quiet int64
+		for _, e := range evs {
+			if e.Op == "stop-ret" || (e.Op == "run-ret" && e.S == "1") {
+				quiet = e.Seq
+			}
+		}
+		n := 0
+		for _, e := range evs {
+			if e.Who == "T" && e.Op == "commit" && e.Seq > quiet {
+				n++
+			}
+		}
+		if n >= 2 {
+			how := "Run returned without starting"
+			if cfg.NoRun {
+				how = "Run was never called"
+			}
+			return &Failure{keyNestedLeftRunning, fmt.Sprintf("the context was stopped before it ran (%s): Stop returned, and afterwards its nested archetype committed %d more critical sections; nothing is left that could stop it (Close is never called)", how, n)}
+		}
+	}
 	if cfg.NoRun || run1Call == 0 {
 		return nil
 	}
@@ -620,7 +715,7 @@ func (w *world) judge(evs []bubble.Event) *Failure {
 			wantC = true
 		}
 	}
-	if cfg.Nested != "" || cfg.proto() || cfg.Late {
+	if cfg.Nested != "" || cfg.proto() || cfg.Late || cfg.Nested2 != "" {
 		// the outer archetype used the nested resource after the nested archetype had ended: Run must report that
 		// resource error (resources.ErrNestedArchetypeStopped), whatever else it reports
 		touchedStopped := false
